@@ -495,13 +495,16 @@ def run(rep):
                     rep.known_finding(devs[d])
                 continue
             nviol += 1
-            if nviol <= 3:
+            if nviol <= 3:          # shrink and explain the first few; the rest are stored as recorded
                 small = _shrink(ex, work, tr, pool0, pools.get(tuple(sorted(devs))))
+                _, g1 = validate(work, [small], pool0, tag="one")
+                k = min(g1[1]["reached"], len(small) - 1)
+                exp = expected_of(work, small[:k + 1], pool0).get(k + 1, {})
             else:
                 small = tr
-            _, g1 = validate(work, [small], pool0, tag="one")
-            k = min(g1[1]["reached"], len(small) - 1)
-            exp = expected_of(work, small[:k + 1], pool0).get(k + 1, {})
+                k = min(got[t]["reached"], len(small) - 1)
+                small = small[:k + 1]
+                exp = {}
             e = small[k]
             c = next((x["arg"] for x in reversed(small[:k + 1]) if x["name"] == "NewMM" and x["slot"] == e["slot"]), "-")
             rep.violation(dict(kind="history", source=meta[t - 1],
@@ -510,8 +513,10 @@ def run(rep):
                                expected=dict(res=exp.get("res"), state=exp.get("state"))),
                           f"call {k + 1} of a history ({e['name']} slot {e['slot']} {e['arg']} on {c}, after "
                           f"{[x['name'] + ':' + str(x['arg']) for x in small[:k]]}) gave {e['res']} with shared state "
-                          f"{_state_brief(e['state'])}; History.tla (Fresh table) prescribes {exp.get('res')} with "
-                          f"{_state_brief(exp.get('state'))}")
+                          f"{_state_brief(e['state'])}"
+                          + (f"; History.tla (Fresh table) prescribes {exp.get('res')} with "
+                             f"{_state_brief(exp.get('state'))}" if exp else
+                             "; not a step of History!Next (run --replay for the prescribed result)"))
         rep.exhaustive = False
         lap("verdicts")
     finally:
